@@ -109,6 +109,8 @@ Definition sstep (o : op) (P : apool) : apool * outcome :=
   | OPushBackSelfRange i x y =>
       a_on P i (fun a => if (x <=? y) && (y <=? length (snd a))
                          then a_range a (Some (bl_append_range (fst a) (snd a) (firstn (y - x) (skipn x (snd a))))) else (a, Skipped))
+  (* a position before the first element is outside [0,size) resp. [0,size]: refused, nothing changes *)
+  | OEraseBefore i _ | OEmplaceBefore i _ _ | OInsertRangeBefore i _ _ => a_on P i (fun a => (a, Raised))
   end.
 
 Fixpoint srun (ops : list op) (P : apool) : apool * list outcome :=
